@@ -80,7 +80,7 @@ theorem hom_run_pattern (hsq : IsSqrt (SqrtFn.sq : K → K)) (p : Problem K) (hr
     exact Env.blockMat_WF b (H.blocks b hb)
   have hrows' : mat.rows = ((Env.covMats p).map (·.dim)).sum := by rw [covMats_dims, H.dims, H.rows]
   obtain ⟨hWF, hcolsx⟩ := @Cov.Hom.run_export K _ _ _ _ (Env.hsq_of_isSqrt hsq) (Env.bdTol : K) Env.bdTol_pos
-    mat cov p.rhs (Env.covMats p) tail H.built hCwf H.wf hrows' H.nodup out hout
+    mat cov p.rhs (Env.covMats p) tail H.built hCwf H.wf hrows' out hout
   obtain ⟨_, _, g3, g4, g5⟩ := (hom_run_eq_homogenize hsq p mat cov tail H).2.2.2 out hh hout hhom
   refine ⟨hWF, ?_⟩
   rw [homogenize_pat p hh hhom, g3]
